@@ -329,13 +329,31 @@ func (e *c14Env) run(c *c14Case) (o c14Obs) {
 	return
 }
 
-func (o c14Obs) answer() string {
+// corrupted: the encoded stream itself was damaged (bit flip, truncation with matching framing).
+func (c *c14Case) corrupted() bool { return c.stream == "flip" || c.stream == "trunc" }
+
+// flipUnchecked: a bit flip in a format without an integrity check (raw deflate, brotli) may
+// decode to anything - error, payload, or other bytes with a clean end, depending on the bit
+// and on how the input arrives. Nothing about the body can be judged; the decision, the headers
+// and the absence of a crash still are.
+func (c *c14Case) flipUnchecked() bool {
+	return c.stream == "flip" && (c.alg == "br" || c.alg == "deflate")
+}
+
+func (o c14Obs) answer(c *c14Case) string {
 	if o.rtErr != "" {
 		return "roundtrip-error"
 	}
 	body := "nil"
 	if !o.bodyNil {
 		body = verifc14.Digest(o.data, o.term)
+		if o.unc && c.flipUnchecked() {
+			body = "flip-unchecked"
+		} else if o.unc && c.corrupted() {
+			// decoded corrupted stream: {read error} and {exactly the original payload} are both
+			// admissible and which one a decoder gives may depend on how the bytes arrive
+			body = verifc14.CorruptDigest(o.data, o.term, c.payload)
+		}
 	}
 	unc := "0"
 	if o.unc {
@@ -384,8 +402,18 @@ func (c *c14Case) args() string {
 	return strings.Join([]string{c.proto, c14b(c.dc), c14b(c.auto), verifh.Hex(c.method), verifh.Hex(c.ae), verifh.Hex(c.rng),
 		c14b(c.hasBody()), verifh.HexList(c.sentHeader()), strconv.FormatInt(c.declaredLength(), 10),
 		verifc14.Digest(c.wireBody(), verifc14.Term(c.wireFin())),
-		verifc14.RefDigestFin("gzip", c.wireBody(), c.wireFin()), verifc14.RefDigestFin("deflate", c.wireBody(), c.wireFin()),
-		verifc14.RefDigestFin("br", c.wireBody(), c.wireFin()), verifc14.RefDigestFin("zstd", c.wireBody(), c.wireFin())}, " ")
+		c.refDigest("gzip"), c.refDigest("deflate"), c.refDigest("br"), c.refDigest("zstd")}, " ")
+}
+
+// refDigest: the meaning of the body under alg per the reference library (whole input at once).
+func (c *c14Case) refDigest(alg string) string {
+	if c.flipUnchecked() {
+		return "flip-unchecked"
+	}
+	if c.corrupted() {
+		return verifc14.RefCorruptDigest(alg, c.wireBody(), c.payload, c.wireFin())
+	}
+	return verifc14.RefDigestFin(alg, c.wireBody(), c.wireFin())
 }
 
 // wireBody: what the framing layer delivers (nothing for HEAD).
@@ -508,6 +536,10 @@ func (c *c14Case) oracle(o c14Obs) (ok bool, why string) {
 			return false, fmt.Sprintf("decoded body %s, original payload %s", verifc14.Digest(o.data, o.term), verifc14.Digest(c.payload, "eof"))
 		}
 	case "trunc":
+		// admissible: a read error (after a prefix of the payload), or exactly the payload
+		if o.term == "eof" && bytes.Equal(o.data, c.payload) {
+			return true, ""
+		}
 		if !strings.HasPrefix(o.term, "err") {
 			return false, fmt.Sprintf("truncated %s stream read as %s (no error)", alg, verifc14.Digest(o.data, o.term))
 		}
@@ -740,10 +772,9 @@ func c14RunLane(t *testing.T, s *verifh.Session, e *c14Env, cases []*c14Case, ne
 			human += " :: " + why
 		}
 		// the brotli library reports a truncated stream as a clean EOF (see the unit lane)
-		if !ok && !o.bodyNil && c.stream == "trunc" && len(c.ce) > 0 && c.ce[0] == "br" && c.auto && o.term == "eof" {
-			if _, _, term := verifc14.Ref("br", c.wire, io.EOF); term == "eof" {
-				class = "br-truncated-eof"
-			}
+		if !ok && !o.bodyNil && c.stream == "trunc" && len(c.ce) > 0 && c.ce[0] == "br" && c.auto && o.term == "eof" &&
+			len(o.data) < len(c.payload) && bytes.HasPrefix(c.payload, o.data) {
+			class = "br-truncated-eof"
 		}
 		if c.stream == "short" {
 			count("short:" + c.id[strings.LastIndex(c.id, "-")+1:])
@@ -781,7 +812,7 @@ func c14RunLane(t *testing.T, s *verifh.Session, e *c14Env, cases []*c14Case, ne
 					lenient = bytes.Equal(o.data, out) && o.term == term
 				}
 			}
-			s.Observe(c.id, lenient, class, true, human, o.answer())
+			s.Observe(c.id, lenient, class, true, human, o.answer(c))
 			continue
 		}
 		if o.rtErr != "" && strings.Contains(o.rtErr, "infra:") {
@@ -813,7 +844,7 @@ func c14RunLane(t *testing.T, s *verifh.Session, e *c14Env, cases []*c14Case, ne
 		if o.proto != int(c.proto[1]-'0') && o.rtErr == "" {
 			t.Fatalf("infra: case %s answered over HTTP/%d", c.id, o.proto)
 		}
-		s.Case("c14x "+c.args(), o.answer(), ok, class, o.unc || len(c.ce) > 0, human)
+		s.Case("c14x "+c.args(), o.answer(c), ok, class, o.unc || len(c.ce) > 0, human)
 	}
 	for _, k := range need {
 		if hist[k] == 0 {
@@ -895,7 +926,7 @@ func TestVerif_C14_cross(t *testing.T) {
 			if o.panicText != "" {
 				answers = append(answers, "panic")
 			} else {
-				answers = append(answers, o.answer())
+				answers = append(answers, o.answer(&c))
 			}
 			if cl := c.class(transportAsked); cl != "" && class == "" {
 				class = cl
@@ -914,7 +945,7 @@ func TestVerif_C14_cross(t *testing.T) {
 		if o2.panicText != "" {
 			again = "panic"
 		} else {
-			again = o2.answer()
+			again = o2.answer(&c2)
 		}
 		idx := map[string]int{"h1": 0, "h2": 1, "h3": 2}[c2.proto]
 		sameReads := again == answers[idx]
@@ -1018,13 +1049,18 @@ func TestVerif_C14_h1gz(t *testing.T) {
 		}
 	}
 	for i, st := range streams {
-		open, out, term := verifc14.Ref("gzip", st.wire, st.fin)
+		sizes := verifc14.Sizes(r)
+		chunk := 0
+		if r.Intn(2) == 0 {
+			chunk = 1 + r.Intn(40)
+		}
+		// reference = compress/gzip used directly under the same schedule
+		open, out, term := verifc14.RefSched("gzip", st.wire, st.fin, chunk, sizes)
 		if len(out) > 8192 {
 			out, st.payload = nil, nil
 			st.wire, st.kind, st.fin = nil, "empty", io.EOF
 			open, out, term = verifc14.Ref("gzip", nil, io.EOF)
 		}
-		sizes := verifc14.Sizes(r)
 		var extra []int
 		for k := r.Intn(4); k > 0; k-- {
 			extra = append(extra, 1+r.Intn(64))
@@ -1042,10 +1078,7 @@ func TestVerif_C14_h1gz(t *testing.T) {
 				extra = append(extra, 0) // read on a closed body: sticky for empty buffers too
 			}
 		}
-		src := &verifc14.Src{Data: append([]byte(nil), st.wire...), Fin: st.fin}
-		if r.Intn(2) == 0 {
-			src.Chunk = 1 + r.Intn(40)
-		}
+		src := &verifc14.Src{Data: append([]byte(nil), st.wire...), Fin: st.fin, Chunk: chunk}
 		var got string
 		var raw []byte
 		id := fmt.Sprintf("h1gz/%s#%d", st.kind, i)
@@ -1065,11 +1098,12 @@ func TestVerif_C14_h1gz(t *testing.T) {
 			switch st.kind {
 			case "valid", "multi":
 				ok = gotData == verifh.Hex(string(st.payload)) && gotTerm == "eof"
-			case "trunc", "srcerr":
+			case "trunc":
+				// admissible: a read error after a prefix of the payload, or exactly the payload
+				ok = strings.HasPrefix(gotTerm, "err") && bytes.HasPrefix(st.payload, raw) ||
+					gotTerm == "eof" && bytes.Equal(raw, st.payload)
+			case "srcerr":
 				ok = strings.HasPrefix(gotTerm, "err")
-				if st.kind == "trunc" && !bytes.HasPrefix(st.payload, raw) {
-					ok = false
-				}
 			case "flip":
 				ok = strings.HasPrefix(gotTerm, "err") || gotData == verifh.Hex(string(st.payload))
 			}
